@@ -200,14 +200,22 @@ def _output_cells_(ctx):
         wrong[pos] = named(xfps[pos], "1/7", "1/9")
         cases.append(("a change output whose key %d is not the key the stated path leads to" % pos, [out_(900, "change-addr", wrong), spend()], False))
     cases.append(("a change output with two records for three keys", [out_(900, "change-addr", honest[:2]), spend()], False))
+    # a script with another key count whose every key IS verified (as many records as keys, all of known, distinct cosigners): only the
+    # comparison with the inputs' n can refuse it
+    cases.append(("a 2-of-2 change output with one verified key of each of two cosigners", [out_(900, "change-addr", honest[:2], quorum=(2, 2)), spend()], False))
+    cases.append(("a 2-of-4 change output with one verified key of each of four known cosigners", [out_(900, "change-addr", honest + [named("dddddddd", "1/7")], quorum=(2, 4)), spend()], False, 4))
     cases.append(("two change outputs", [out_(900, "change-addr", list(honest)), out_(800, "change-2", [named(x, "1/8") for x in xfps])], False))
     n = 0
     try:
-        for label, outs, ok in cases:
+        for case in cases:
+            label, outs, ok = case[:3]
             n += 1
             me = Obj("psbt", "PSBT", {"psbt_outs": outs, "network": "testnet"})
+            hm = dict(hdmap)
+            if len(case) > 3:
+                hm["dddddddd"] = Obj("hd", "HDPublicKey", {"xfp": "dddddddd", "depth": 4, "at": ("dddddddd", "m")})
             try:
-                r = Evaluator(ctx.repo, method_hooks=hooks, max_steps=2000000).call(spec, [2, 3, dict(hdmap)], self_obj=me)
+                r = Evaluator(ctx.repo, method_hooks=hooks, max_steps=2000000).call(spec, [2, 3, hm], self_obj=me)
                 acc = True
             except Raised as x:
                 acc, r = False, x.name
